@@ -520,7 +520,9 @@ pub fn cmd_tamper(args: &[String]) {
             // libsodium produces the authentic ciphertext, after `nprev` earlier messages
             let (_, mut spush) = init_pair(&key, &header, 1);
             let mut prevs = vec![];
-            for _ in 0..nprev { prevs.push(so_push(&mut spush, b"earlier", None, 0)); }
+            // the earlier messages carry every kind of tag byte (plain, PUSH, REKEY, FINAL, REKEY with unnamed bits, 0xff): what
+            // an accepted message does to the receiver's state decides whether the next untampered one is accepted
+            for _ in 0..nprev { let pt = [0u8, 1, 2, 3, 0x82, 0x42, 0x06, 0xff][rng.below(8) as usize]; prevs.push(so_push(&mut spush, b"earlier", None, pt)); }
             let c = so_push(&mut spush, &m, ad.as_deref(), tag);
             let fresh_pull = |k: &[u8; 32], h: &[u8; 24]| -> cs::State {
                 let (mut d, _) = init_pair(k, h, 1);
@@ -684,9 +686,12 @@ macro_rules! session_variant {
                     Ok((mm, tt)) => if mm.as_slice() != &m[..] || tt.bits() != tag { rep.fail("session: DryocStream::pull returns something else than was pushed", d.clone()); },
                     Err(_) => { rep.fail("session: DryocStream::init_pull/pull rejects what DryocStream pushed", d.clone()); return; }
                 }
-                let c2 = so_push(&mut spush, &m, ad.as_deref(), tag);
+                // the tag byte is the sender's choice: a libsodium sender may use any byte, bits without a name included; the
+                // object API hands it over as it is and stays in step with the sender
+                let tag2 = if rng.below(3) == 0 { [0x84u8, 0x06, 0xff, 0x42, 0x80, 0x07][rng.below(6) as usize] } else { tag };
+                let c2 = so_push(&mut spush, &m, ad.as_deref(), tag2);
                 match dpull2.pull_to_vec(&c2, ad.as_ref()) {
-                    Ok((mm, tt)) => if mm != m || tt.bits() != tag { rep.fail("session: DryocStream::pull_to_vec returns something else than libsodium pushed", d.clone()); },
+                    Ok((mm, tt)) => if mm != m || tt.bits() != tag2 { rep.fail("session: DryocStream::pull_to_vec returns something else than libsodium pushed", d.clone()); },
                     Err(_) => { rep.fail("session: DryocStream::init_pull/pull_to_vec rejects what libsodium pushed", d.clone()); return; }
                 }
             }
